@@ -10,6 +10,7 @@ import (
 	"testing"
 
 	"github.com/wollac/iota-crypto-demo/pkg/bip39"
+	"github.com/wollac/iota-crypto-demo/pkg/bip39/wordlist"
 	"golang.org/x/text/unicode/norm"
 	"pgregory.net/rapid"
 
@@ -69,7 +70,45 @@ func TestMain(m *testing.M) {
 
 var langs = []string{"english", "japanese"}
 
+// seedLangs adds a word list registered by the harness through the public RegisterWordList: the English
+// words in reverse order, behind an implementation that follows the documented contract of wordlist.List
+// to the letter (Index panics for a word that is not contained).
+const strictLang = "verif-strict"
+
+var seedLangs = []string{"english", "japanese", strictLang}
+
+type strictList struct{ l *ref.List }
+
+func (s strictList) Contains(w string) bool { _, ok := s.l.Index[w]; return ok }
+func (s strictList) Word(i int) string      { return s.l.Words[i] }
+func (s strictList) Index(w string) int {
+	i, ok := s.l.Index[w]
+	if !ok {
+		panic("verif-strict word list: Index called for a word that is not contained: " + w)
+	}
+	return i
+}
+
+var strictRef *ref.List
+
+func init() {
+	en, err := ref.Load("english")
+	if err != nil {
+		panic(err)
+	}
+	strictRef = &ref.List{Index: map[string]int{}}
+	for i := range en.Words {
+		w := en.Words[len(en.Words)-1-i]
+		strictRef.Words[i] = w
+		strictRef.Index[w] = i
+	}
+	bip39.RegisterWordList(strictLang, func() wordlist.List { return strictList{strictRef} })
+}
+
 func list(lang string) *ref.List {
+	if lang == strictLang {
+		return strictRef
+	}
 	l, err := ref.Load(lang)
 	if err != nil {
 		panic(err)
@@ -176,7 +215,7 @@ func blockLengthWords(t *rapid.T, l *ref.List, n int) ([]string, bool) {
 }
 
 func genSeed(t *rapid.T) seedCase {
-	lang := h.OneOf(t, "lang", langs...)
+	lang := h.OneOf(t, "lang", seedLangs...)
 	l := list(lang)
 	words := genValidWords(t, l)
 	if h.Pick(t, "blocklen", 5, 1) == 1 {
@@ -213,7 +252,7 @@ func TestSeed(t *testing.T) {
 		Prop: "C09", Name: "seed", N: 1600,
 		Gen: genSeed, Check: checkSeed,
 		Require: []string{"seed/normalizing-table", "seed/invalid-mnemonic", "seed/empty-passphrase", "seed/normalizing-raw", "seed/sentence-fills-hash-blocks"},
-		Rule:    "valid mnemonics of both lists (all sizes; one in six searched so that the joined sentence is exactly 111..113, 127..129 or 255..257 bytes long) x passphrases built from a hand-made (raw, NFKD) piece table (composed, compatibility, Hangul, kana, mis-ordered combining marks) or arbitrary strings (NFKD by x/text); seed = own PBKDF2-HMAC-SHA512(2048) over words joined by one space and salt mnemonic||NFKD(passphrase); invalid mnemonics give an error; non-trivial = non-empty passphrase or invalid mnemonic; distinct by case",
+		Rule:    "valid mnemonics of both built-in lists and of a list registered by the harness (all sizes; one in six searched so that the joined sentence is exactly 111..113, 127..129 or 255..257 bytes long) x passphrases built from a hand-made (raw, NFKD) piece table (composed, compatibility, Hangul, kana, mis-ordered combining marks) or arbitrary strings (NFKD by x/text); seed = own PBKDF2-HMAC-SHA512(2048) over words joined by one space and salt mnemonic||NFKD(passphrase); invalid mnemonics give an error; non-trivial = non-empty passphrase or invalid mnemonic; distinct by case",
 	})
 }
 
@@ -229,7 +268,7 @@ func TestSeedInvalidMnemonic(t *testing.T) {
 	h.Run(t, h.Sub[invCase]{
 		Prop: "C09", Name: "seed-invalid-mnemonic", N: 12000,
 		Gen: func(t *rapid.T) invCase {
-			lang := h.OneOf(t, "lang", langs...)
+			lang := h.OneOf(t, "lang", seedLangs...)
 			l, other := list(lang), list(langs[0])
 			if lang == langs[0] {
 				other = list(langs[1])
@@ -278,6 +317,9 @@ func TestSeedInvalidMnemonic(t *testing.T) {
 			if len(c.Words) >= 27 {
 				cls += "/long"
 			}
+			if c.Lang == strictLang {
+				cls = "invalid/registered-strict-list"
+			}
 			info := h.Info{Class: cls, NT: true}
 			got, err := bip39.MnemonicToSeed(append(bip39.Mnemonic{}, c.Words...), "TREZOR")
 			if strings.Contains(c.Mut, "denormalized-word") && err == nil {
@@ -297,8 +339,8 @@ func TestSeedInvalidMnemonic(t *testing.T) {
 			}
 			return info, nil
 		},
-		Require: []string{"invalid/checksum-bit-flip/long", "invalid/checksum-bit-flip", "invalid/last-word/long", "invalid/drop", "invalid/foreign-word", "invalid/hash-impostor-word", "invalid/valid-in-the-other-list"},
-		Rule:    "valid sentences of every size (12..48 words, both lists) with one or two mutations (other word, last word, single checksum-bit flip, single bit flip, foreign-list word, malformed word, drop, duplicate, swap), or with one word replaced by a non-list string of the same 32-bit FNV hash, or valid sentences of the registered list that is not selected: whenever the reference rejects the sentence MnemonicToSeed must return an error and no seed; all non-trivial; distinct by case",
+		Require: []string{"invalid/registered-strict-list", "invalid/checksum-bit-flip/long", "invalid/checksum-bit-flip", "invalid/last-word/long", "invalid/drop", "invalid/foreign-word", "invalid/hash-impostor-word", "invalid/valid-in-the-other-list"},
+		Rule:    "valid sentences of every size (12..48 words, both lists) with one or two mutations (other word, last word, single checksum-bit flip, single bit flip, foreign-list word, malformed word, drop, duplicate, swap), or with one word replaced by a non-list string of the same 32-bit FNV hash, or valid sentences of the registered list that is not selected; one case in three uses a list registered by the harness through RegisterWordList (the English words reversed) whose Index panics for unknown words, as the wordlist.List contract allows: whenever the reference rejects the sentence MnemonicToSeed must return an error and no seed; all non-trivial; distinct by case",
 	})
 }
 
